@@ -578,6 +578,49 @@ def _ser(st):
     return st
 
 
+def conform(traces):
+    """Model-to-code binding for the event-level pool harness: every
+    worker-local trace its reference worker (SpecWorker) produced -- tasks
+    finished with success/failure, then nothing yet / sentinel exit / quota
+    exit -- is replayed on the REAL Worker; the message skeleton and the
+    exit status must be the same.  Returns (replayed, mismatches)."""
+    bad = []
+    n = 0
+    for maxtasks, trace in traces:
+        tasks_ = [t for t in trace if t[0] == 'task']
+        ends = [t for t in trace if t[0] == 'exit']
+        if ends and (not ends[0][2] or ends[0][1] not in (0, bp.EX_RECYCLE)):
+            continue      # abrupt deaths / signals: fault injection part
+        cfg = dict(tasks=['ok' if t[1] else 'raise' for t in tasks_] or ['ok'],
+                   quota=maxtasks, end='sentinel')
+        if not tasks_:
+            cfg['tasks'] = []
+        r = Run(cfg, None, False).run()
+        n += 1
+        skel = [(m[0], m[1][2][0]) if m[0] == READY else (m[0],)
+                for m in r['msgs'] if m]
+        want = []
+        k = 0
+        for t in tasks_:
+            if maxtasks and k >= maxtasks:
+                break
+            want += [(ACK,), (READY, t[1])]
+            k += 1
+        if skel[:len(want)] != want:
+            bad.append('trace %r (quota %r): real worker wrote %r, the '
+                       'reference worker %r' % (trace, maxtasks, skel, want))
+            continue
+        if ends:
+            if r['status'] != ends[0][1]:
+                bad.append('trace %r (quota %r): real worker exit status %r, '
+                           'reference %r' % (trace, maxtasks, r['status'],
+                                             ends[0][1]))
+            elif skel[len(want):] != [(DEATH,)]:
+                bad.append('trace %r: real worker tail %r, reference one '
+                           'death notice' % (trace, skel[len(want):]))
+    return n, bad
+
+
 def part(rep, tier, name, sigs, pick=None, lines=None):
     """Run the L1 enumeration and record it in ``rep`` as part ``name``."""
     from vmc import par
